@@ -9,8 +9,11 @@ MANIFEST = {
     "technique": "Coq proof over hand-written Gallina transcriptions of avc/annexb.go, avc/nalus.go, avc/avc.go, "
                  "hevc/annexb.go, hevc/hevc.go (the hevc helpers transcribed a second time, from the hevc text alone) "
                  "+ differential correspondence (extracted OCaml vs Go, hook-exported scanner) + failing-input search "
-                 "with oracles written over the generating NAL unit list; the check itself mutation-tested with 39 "
-                 "code changes (reports/C14.md)",
+                 "with oracles written over the generating NAL unit list, both on the native build and on a GOARCH=386 "
+                 "build of the harness (uintSize = 4, own transcription coq/c14/C14Scan32Model.v); the driver also "
+                 "evaluates the hypotheses of the byte-level theorems on every run input and compares the theorems' "
+                 "right-hand sides with the Go results; the check itself mutation-tested with 41 code changes "
+                 "(reports/C14.md)",
     "level_text": "Theorems (coq/c14/C14Theorems.v), all unbounded and closed under the global context: "
                   "C14_has_zero_byte (the hasZeroByte word trick = 'some byte of the word is zero' for every 8-byte word, "
                   "little- and big-endian load, by a byte-wise borrow-chain induction); C14_scanner_eq_naive (the "
@@ -33,13 +36,23 @@ MANIFEST = {
                   "sets after the first VCL unit ignored) and C14_helpers_hevc_units_stream (ExtractNalusFromByteStream, "
                   "hevc.GetParameterSetsFromByteStream, hevc.ExtractNalusOfTypeFromByteStream with/without stopAtVideo) "
                   "for EVERY list of units carrying a two-byte header, against list functions written over the header's "
-                  "type field. Explored only (search, no theorem): units of 64 KiB and 16 MiB through the real code. "
+                  "type field. Over BYTE STRINGS (the property's own quantifier; coq/c14/C14RecogModel.v): "
+                  "C14_stream_recogniser_exact / C14_sample_recogniser_exact (the executable recognisers wf_stream / wf_sample "
+                  "accept exactly the streams / samples of non-empty lists of well-formed units and read back the generating "
+                  "list, so 'the NAL units between the start codes' are unique), C14_stream_bytes and C14_sample_bytes (every "
+                  "clause above -- scanner, both conversions, round trip, every AVC and HEVC helper -- for EVERY accepted byte "
+                  "string, in terms of the units read from the bytes), C14_stream_bytes_short (no size hypothesis for streams "
+                  "shorter than 4 GiB). 32-bit platforms: C14_has_zero_byte32 and C14_scanner32_eq_naive (the compilation with "
+                  "uintSize = 4 -- 4-byte loads, constants 0x01010101 / 0x80808080, two probes per word, tail from "
+                  "len - len%4 - 4 -- returns the byte-by-byte scan on every byte string, hence the same start codes and the "
+                  "same conversion as the 64-bit compilation). "
+                  "Explored only (search, no theorem): units of 64 KiB and 16 MiB through the real code. "
                   "The models are tied to /repo on every run by running them (extracted) against the real functions.",
     "level_note": "Trusted: Coq kernel, extraction (ExtrOcamlBasic), OCaml/Go glue, and the correspondence being only as "
                   "good as its generated inputs (every {00,01,xx} pattern at every offset of word-crossing backgrounds, "
                   "unit-list streams incl. parameter-set-heavy lists and every type-test boundary, mutated streams; the "
-                  "extracted scanner is quadratic, so streams above 64 KiB reach only the Go-side search). The 8-byte "
-                  "load through unsafe.Pointer is modelled as the little-endian value of 8 in-range bytes (a load past "
+                  "extracted scanner is quadratic, so streams above 64 KiB reach only the Go-side search). The uint "
+                  "load through unsafe.Pointer is modelled as the little-endian value of 8 (32-bit build: 4) in-range bytes (a load past "
                   "the slice end is a model Panic, proved not to happen); Go int is an unbounded Z (lengths < 2^62); "
                   "slices have cap = len; make([]byte, n) is n zero bytes with cap = n; sub-slices of psData are kept as "
                   "index pairs and read from the final psData (aliasing made explicit). extractSlice (make + copy) is "
@@ -114,10 +127,14 @@ def run(ctx):
         "every avc_gpsb case)",
         "spec: coq/c14/C14HevcSpec.v two-byte NAL unit header, hevc_unit_type, u_* list functions (written by hand)",
         "spec: coq/c14/C14Spec.v naive_scan / stream / sample / wf_nalu (written by hand)",
+        "model: coq/c14/C14Scan32Model.v getStartCodePositions / hasZeroByte / ConvertByteStreamToNaluSample as compiled "
+        "for uintSize = 4 (answers the hzb32 / scan32 / b2s32 cases of the GOARCH=386 harness build)",
+        "spec: coq/c14/C14RecogModel.v unstream / wf_stream / unsample / wf_sample (recognisers, proved exact)",
         "hook: /repo/avc/verif_c14.go re-exports getStartCodePositions and hasZeroByte (build tag verif)",
     ]
     ctx.assumptions += [
-        "64-bit little-endian platform (uint = 8 bytes); the has_zero_byte theorem also covers the big-endian load",
+        "little-endian platform with uint = 8 bytes (native build) or 4 bytes (GOARCH=386 build, run on this machine); "
+        "the has_zero_byte theorems also cover the big-endian load; Go int is modelled unbounded on both (inputs < 2^31)",
         "input slices have cap == len (the harness passes exact-capacity copies)",
         "well-formed unit: non-empty, last byte non-zero, no 00 00 01 inside, total sample length < 2^32",
         "crash-safety of the walkers on hostile length fields is property C16's subject; C14 feeds them well-formed "
@@ -204,6 +221,8 @@ def run(ctx):
         for l in so.splitlines():
             f = l.split("\t")
             if f[0] == "FAIL":
+                if xe == exe386:
+                    f[4] += " [on the GOARCH=386 build of the library: uintSize = 4]"
                 fails.append(f)
             elif f[0] == "EVALS":
                 sev += int(f[1])
@@ -225,7 +244,8 @@ def run(ctx):
                        "mismatches": mism_tot, "first_case": first_mism[0], "model_says": first_mism[1]},
                       "model/implementation disagree on %d cases" % mism_tot, no_input=True)
     ctx.proof_violation_if_broken(pr, "c14 search: %d evaluations, no failing input" % sev)
-    ctx.cov["rule"] = ("corr: hasZeroByte on random/structured words; scanner+conversions on every {00,01,xx} pattern "
+    ctx.cov["rule"] = ("every family below on the native build AND on a GOARCH=386 build (backgrounds 8..32 there); "
+                       "corr: hasZeroByte on random/structured words; scanner+conversions on every {00,01,xx} pattern "
                        "(length <= plen) at every offset of non-zero backgrounds of the listed lengths (all alignments "
                        "mod 8, all word/tail hand-overs), two patterns at once, random small-alphabet strings of length "
                        "0..72; all 24 functions on streams/samples built from 1..6 emulation-free units of 1..120 bytes "
@@ -243,8 +263,11 @@ def replay(ctx, path):
     w = r.get("witness")
     if r.get("kind") == "failing-input" and w:
         exe, _ = build(ctx)
+        plat = "amd64"
+        if "GOARCH=386" in r.get("description", ""):
+            exe, plat = build386(ctx), "GOARCH=386"
         fn, args, hexin = w.split(" ")
         rc, so, e = sh2([exe, "call", fn, args, hexin], timeout=60)
-        print("replayed on the current /repo tree: %s %s %s -> %s" % (fn, args, hexin, so.strip()))
+        print("replayed on the current /repo tree (%s build): %s %s %s -> %s" % (plat, fn, args, hexin, so.strip()))
         print("expected: " + r.get("description", ""))
     return 0
